@@ -182,6 +182,24 @@ def pool(chk, thorough, seed):
     take(c15.like_decks(chk, False, seed), q(50, 600), 'like')
     bdecks = common_bool.generate(chk, False, seed + 3, nsim_quick=q(200, 1500))
     take(bdecks, q(80, 1000), 'boolean')
+    # a lattice cell written LIKE n BUT U=m (FILL=n lattices: both cells need their --lattice ranges)
+    for k in range(q(6, 40)):
+        w = rng.choice([1, 2])
+        r1 = [[rng.choice([-1, 0]), rng.choice([0, 1])], [0, rng.choice([0, 1])]][:rng.choice([1, 2])]
+        nsurf = 2 * len(r1)
+        geom = ['*', ['S', -11, 0], ['S', 12, 0]] + ([['S', -13, 0], ['S', 14, 0]] if len(r1) == 2 else [])
+        lat = {'geom': geom, 'lat': 1, 'lranges': r1, 'lunivs': [7] * ((r1[0][1] - r1[0][0] + 1) * ((r1[1][1] - r1[1][0] + 1) if len(r1) == 2 else 1)),
+               'lvecs': [[4 * w, 0, 0], [0, 4 * w, 0]][:len(r1)], 'latopt': True, 'fill': 7}
+        d = adeck.normalise({'surfs': [{'n': 1, 'k': 'so', 'p': [5]}, {'n': 2, 'k': 'so', 'p': [8]},
+                                       {'n': 11, 'k': 'px', 'p': [w]}, {'n': 12, 'k': 'px', 'p': [-w]},
+                                       {'n': 13, 'k': 'py', 'p': [w]}, {'n': 14, 'k': 'py', 'p': [-w]}, {'n': 21, 'k': 'pz', 'p': [0]}],
+                             'cells': [{'n': 1, 'geom': ['S', -1, 0], 'fill': 1}, {'n': 2, 'geom': ['*', ['S', 1, 0], ['S', -2, 0]], 'fill': 3},
+                                       {'n': 3, 'geom': ['S', 2, 0], 'imp': 0},
+                                       dict(lat, n=10, u=1), dict(lat, n=20, u=3, like=10, but=['u=3']),
+                                       {'n': 21, 'geom': ['S', -21, 0], 'u': 7}, {'n': 22, 'geom': ['S', 21, 0], 'u': 7}]})
+        d['family'] = 'like_lattice'
+        d['opts'] = adeck.lattice_opts(d)
+        out.append(d)
     # explicit material cards (two or three fractions of one sign) for the decks that use materials
     for d in out:
         mats = sorted({c['mat'] for c in d['cells'] if c['mat']})
